@@ -65,7 +65,8 @@ Definition covered : list string := [
   "fru_control_graceful_reboot"; "fru_control_diagnostic_interrupt"; "get_power_level";
   "get_fan_speed_properties"; "set_fan_level"; "get_fan_level"; "get_led_state"; "set_led_state";
   "set_fru_activation"; "set_fru_deactivation"; "set_fru_activation_policy"; "set_fru_activation_lock";
-  "clear_fru_activation_lock"; "set_fru_deactivation_lock"; "clear_fru_deactivation_lock"
+  "clear_fru_activation_lock"; "set_fru_deactivation_lock"; "clear_fru_deactivation_lock";
+  "get_target_upgrade_capabilities"; "get_upgrade_status"; "query_selftest_results"
 ]%string.
 
 Definition is_supported (name : string) : bool :=
